@@ -433,9 +433,10 @@ async def _listen_on(g, tr, ops, fresh_listener: bool, keep_version: str | None 
             if listener is not None:
                 await listener.aclose()
             listener = g.listen()
+        got_msg = None           # the Message object the application got hold of at this step (yielded, or carried by the error)
         try:
             m = await anext(listener)
-            obs, how = _fields_of_message(m), "yield"
+            obs, how, got_msg = _fields_of_message(m), "yield", m
         except Exception as e:  # noqa: BLE001
             listener = None      # an async generator that raised is finished
             how = type(e).__name__
@@ -443,6 +444,7 @@ async def _listen_on(g, tr, ops, fresh_listener: bool, keep_version: str | None 
             if isinstance(e, exc.AIOMySensorsError) and isinstance(carried, Message):
                 obs = _fields_of_message(carried)
                 how += "(decoded message)"
+                got_msg = carried
             elif isinstance(e, exc.InvalidMessageError):
                 obs = ("invalid",)
             elif isinstance(e, exc.AIOMySensorsError):
@@ -451,7 +453,7 @@ async def _listen_on(g, tr, ops, fresh_listener: bool, keep_version: str | None 
                 obs = ("foreign", type(e).__name__)
         state = gw.render_state(g)
         trace.append({"obs": obs, "how": how, "proto": proto, "touched": state != before or bool(tr.attempts),
-                      "overread": len(tr.lines) < 1})
+                      "overread": len(tr.lines) < 1, "msg": got_msg})
         if keep_version is not None and g.protocol_version != keep_version:
             g.protocol_version = keep_version
             state = gw.render_state(g)
@@ -557,9 +559,14 @@ def run_c02(ctx) -> Corr:
                 "populated registries, one listen() generator or a fresh one per line); then the boundary lines (node / "
                 "child id 0/254/255/256 x every command) again before and after every step of other activity of the "
                 "library in the same process (sessions on persistence files, saves / loads, other schema and gateway "
-                "objects), through decoders created for the probe and decoders created before that activity. "
+                "objects), through decoders created for the probe and decoders created before that activity; then "
+                "histories in which the application assigns to (every field, and all six), sends, dumps or keeps the Message "
+                "objects it received between decodes of equal, respelled and neighbouring well-formed lines, through fresh and "
+                "long-lived MessageSchema / Gateway objects under changing versions: every load judged as before, and every "
+                "message still held keeps its returned values overlaid with the application's own assignments. "
                 "non-trivial = distinct (line, version) whose outcome is reject, or accept with a non-canonical "
-                "numeral; for the interference probes: distinct (steps so far, decoder, version, line) after at least one step")
+                "numeral; for the interference probes: distinct (steps so far, decoder, version, line) after at least one step; "
+                "for the returned-object histories: loads after at least one assignment in the history")
     corr.notes.append("Gateway.listen part: judged by the property's predicate (reject = InvalidMessageError that does not carry a "
                       "decoded Message, nothing yielded, no state change, no write, the following line not read; accept = the "
                       "yielded message, or the Message carried by a handler's library error, has exactly the spelled values) and "
@@ -595,7 +602,11 @@ def run_c02(ctx) -> Corr:
             corr.count(f"outcome:{got[0]}")
     model_of = {}
     if ctx.model_ok:
-        outs = lib.run_model(ops)
+        from . import codec_aliasing
+        also = [k for k in codec_aliasing.model_keys(ctx) if not lib.has_surrogate(k[1])]   # the loads of the returned-object part
+        outs = lib.run_model(ops + [model_dec(v, l) for v, l in also])
+        for key, o in zip(also, outs[len(ops):]):
+            model_of[key] = parse_model_dec(o)
         for (case, got), o in zip(rec, outs):
             md = parse_model_dec(o)
             model_of[(case["version"], case["line"])] = md
@@ -608,4 +619,9 @@ def run_c02(ctx) -> Corr:
     t0 = time.time()
     codec_interference.run(corr, ctx, model_of)
     corr.notes.append(f"interference part took {time.time() - t0:.1f}s")
+    # ... nor on what the application did with the messages it got for earlier lines (assigned to, sent, dumped, kept)
+    from . import codec_aliasing
+    t0 = time.time()
+    codec_aliasing.run(corr, ctx, model_of)
+    corr.notes.append(f"returned-object part took {time.time() - t0:.1f}s")
     return corr
